@@ -110,8 +110,11 @@ class RuleDBBase(RuleDBAbstract):
             if rule.is_two_way():
                 self.equivdb.add_two_way_edge(start, ends[0])
                 self.eqv_rule_to_strategy[(start, ends)] = rule.strategy
-                self.rule_to_strategy.pop((start, ends), None)
-                self.rule_to_strategy.pop((ends[0], (start,)), None)
+                # Not using pop as it would needlessly recompute the strategy in
+                # RuleDBForgetStrategy.
+                for key in ((start, ends), (ends[0], (start,))):
+                    if key in self.rule_to_strategy:
+                        del self.rule_to_strategy[key]
             else:
                 self.equivdb.add_one_way_edge(start, ends[0])
                 self.rule_to_strategy[(start, ends)] = rule.strategy
